@@ -18,22 +18,25 @@ def run(tier, seed):
     A = ec.C12_ACTS
     gen = [
         # every history of 2 calls over the core family (exhaustive), chain-crossing widths
-        dict(name="C12_exh_core", consts=ec.consts(CORE, 2, wa=37, wb=331, data=("a", "b", "aCL", "L", "N", "aC") if q else ("", "a", "b", "aCL", "L", "N", "aC", "LC"),
-                                                  nsel=(0, 1, 9) if q else (0, 1, 2, 9))),
+        dict(name="C12_exh_core", consts=ec.consts(CORE, 2, wa=37, wb=331, data=("a", "aCL", "L", "N", "aC") if q else ("", "a", "b", "aCL", "L", "N", "aC", "LC"),
+                                                  nsel=(1, 9) if q else (0, 1, 2, 9))),
         dict(name="C12_exh_space", consts=ec.consts(SPACE - ({"rmbuf", "addiov", "printf"} if q else set()), 2, wa=1021, wb=4099,
                                                    data=("a", "b") if q else ("", "a", "b", "aCL"), nsel=(1, 9) if q else (0, 1, 9),
                                                    sizes=(0, 2000, 5000) if q else (0, 100, 2000, 5000))),
         dict(name="C12_exh_refs", consts=ec.consts(REFS - ({"remove", "prependbuf", "prepend", "pullup"} if q else set()), 2,
-                                                  wa=331, wb=1021, data=("a", "bLa"), nsel=(1, 9) if q else (0, 1, 2, 9))),
+                                                  wa=331, wb=1021, data=("bLa",) if q else ("a", "bLa"), nsel=(1, 9) if q else (0, 1, 2, 9)), stride=2 if q else 1),
+        # empty destinations that still own an (empty) chain: expand / add(0 bytes) then add_buffer_reference (fixed finding a5482ec)
+        dict(name="C12_exh_abr", consts=ec.consts({"add", "expand", "addbufref", "drain"}, 3, wa=37, wb=331, data=("", "a"), nsel=(1, 9), sizes=(100,))),
         # multi-chain start states: 3 forced single-symbol adds, then every 2-call (3-call) history of the move family
-        dict(name="C12_warm_moves", consts=ec.consts(MOVES, 5, wa=1021, wb=4099, data=("a", "b"), nsel=(1, 2, 9), warm=3)),
+        dict(name="C12_warm_moves", consts=ec.consts((MOVES - {"remove", "prepend", "prependbuf"}) if q else MOVES, 5, wa=1021, wb=4099,
+                                                    data=("a", "b"), nsel=(1, 2, 9), warm=3)),
     ]
     sims = [(1, 1), (37, 331), (1021, 4099)] if q else ec.WIDTHS
     for (wa, wb) in sims:
         gen.append(dict(name="C12_rand_%d_%d" % (wa, wb),
                         consts=ec.consts(A, 16 if q else 30, wa=wa, wb=wb, data=BIGDATA, nsel=(0, 1, 2, 3, 5, 9),
                                          sizes=(0, 100, 2000, 5000), maxlen=8 if q else 10),
-                        simulate=12 if q else 60, depth=80))
+                        simulate=6 if q else 60, depth=80))
     if not q:
         gen += [
             dict(name="C12_exh_all2", consts=ec.consts(A, 2, wa=509, wb=2048, data=("a", "aCL", "N"), nsel=(1, 9), sizes=(2000,)),
@@ -49,9 +52,6 @@ def run(tier, seed):
         dict(name="C12_known_rz0", consts=ec.consts({"prepend", "rescommit", "rz0"}, 2, data=("", "a"), sizes=(0,)),
              key_fn=lambda h, k, msg: "reserve-zero-full-chain"
              if has_op(h, lambda s: s["a"] == "rescommit" and s["nb"] == 0 and s["nv"] > 1) and "crash" in msg else None),
-        dict(name="C12_known_abr0", consts=ec.consts({"add", "expand", "addbufref", "abr0"}, 3, data=("a",), sizes=(100,)),
-             key_fn=lambda h, k, msg: "addbufref-empty-dst-chain"
-             if has_op(h, lambda s: s["a"] == "addbufref") and "crash" in msg else None),
         dict(name="C12_known_mcpull", consts=ec.consts({"add", "addbufref", "pullup", "mcpull"}, 6, wa=37, wb=331, data=("a", "b")),
              key_fn=lambda h, k, msg: "multicast-pullup-shared-memory"
              if has_op(h[:k + 1], lambda s: s["a"] == "addbufref") and h[k]["a"] == "pullup" else None),
@@ -70,6 +70,7 @@ def run(tier, seed):
                 "with the specification for BOTH buffers, and the chain list is validated through evbuffer-internal.h "
                 "(first/last/last_with_datap, total_len = sum off, misalign+off <= buffer_len, refcnt). "
                 "distinct = distinct (widths, call sequence); non-trivial = >= 2 content-relevant calls.",
+        "need_hist": {"C12_exh_abr": lambda h: [x["a"] for x in h] == ["add", "expand", "addbufref"]},
         "assumptions": ["positions handed to the library are symbol boundaries (sizes in bytes are prefix sums of symbol widths)",
                         "on failure evbuffer_add_file_segment consumes the caller's segment reference (as evbuffer_add_file relies on)",
                         "evbuffer_add_buffer_reference from a buffer that may hold file-segment/multicast chains is not generated",
